@@ -41,8 +41,11 @@ PROPS = {
                      'accept': lambda f: 'C07' in f['msg'] or 'more than once' in f['msg']}],
     },
     'C09': {
-        'modules': ['OtterVerif.Props.C10'],
-        'engines': [seq(['load'], 300, 10000, lambda f: f['nested'] == 1 and f['class'] in ('result', 'events', 'entry', 'C10', 'C11'))],
+        'modules': ['OtterVerif.Props.C10', 'OtterVerif.Props.C09'],
+        'engines': [seq(['load'], 300, 10000, lambda f: f['nested'] == 1 and f['class'] in ('result', 'events', 'entry', 'C10', 'C11')),
+                    # real goroutines: load 1, invalidation, load 2, load 1 returns late - its result must not be installed
+                    {'kind': 'unit', 'name': 'concflight', 'hcmd': 'conc-flight', 'dcmd': 'concflight', 'quick': 64, 'thorough': 3000, 'chunk': 8, 'args': [],
+                     'accept': lambda f: 'C09' in f['msg']}],
     },
     'C10': {
         'modules': ['OtterVerif.Props.C10'],
